@@ -5,6 +5,7 @@ case.  Runs the executable (`Float`) reading of the model.
 import Geodesy.Model.Wire
 import Geodesy.Model.Proj
 import Geodesy.Model.Ctx.Context
+import Geodesy.Model.Num.Angular
 import Geodesy.Gen.Tables
 
 open Geodesy Geodesy.Text Geodesy.Wire
@@ -193,8 +194,30 @@ def handleReg (fields : List String) : String :=
     | none => "none"
   | _ => "bad-case"
 
+/-- the functions of `math::angular`, arguments and result as hex floats -/
+def handleAng (fields : List String) : String :=
+  match fields with
+  | [fn, args] =>
+    let xs := (args.splitOn ",").map parseFloat
+    let r : Option Float :=
+      match fn, xs with
+      | "dms_to_dd", [d, m, s] => some (Angular.dmsToDd d.toInt64.toInt m.toUInt64.toNat s)
+      | "dm_to_dd", [d, m] => some (Angular.dmToDd d.toInt64.toInt m)
+      | "iso_dm_to_dd", [x] => some (Angular.isoDmToDd x)
+      | "dd_to_iso_dm", [x] => some (Angular.ddToIsoDm x)
+      | "iso_dms_to_dd", [x] => some (Angular.isoDmsToDd x)
+      | "dd_to_iso_dms", [x] => some (Angular.ddToIsoDms x)
+      | "normalize_symmetric", [x] => some (Angular.normalizeSymmetric x)
+      | "normalize_positive", [x] => some (Angular.normalizePositive x)
+      | _, _ => none
+    match r with
+    | some v => fbits v
+    | none => "bad-case"
+  | _ => "bad-case"
+
 def handle (line : String) : String :=
   match line.splitOn "\t" with
+  | "ANG" :: rest => handleAng rest
   | "HIST" :: rest => handleHist rest
   | "REG" :: rest => handleReg rest
   | "PROJ" :: rest => handleProj rest
